@@ -18,6 +18,9 @@ contract("monkeytype.stubs:shrink_traced_types", props=["C01", "C04", "C14"], th
              "post:return-absent": "implies(forall(traces, lambda t: t.return_type is None), result[1] is None)",
              "post:yield-absent": "implies(forall(traces, lambda t: t.yield_type is None), result[2] is None)",
              "post:args-only-traced": "forall(result[0], lambda n: exists(traces, lambda t: has(t.arg_types, n)))",
+             # C06: merging the traces of a function keeps every TypedDict node within the limit
+             "post:td-size-deep": "implies(forall(traces, lambda t: forall(t.arg_types, lambda n: td_okd(lookup(t.arg_types, n), max_typed_dict_size)) and implies(t.return_type is not None, td_okd(t.return_type, max_typed_dict_size)) and implies(t.yield_type is not None, td_okd(t.yield_type, max_typed_dict_size))), forall(result[0], lambda n: td_okd(lookup(result[0], n), max_typed_dict_size))"
+                                  " and implies(result[1] is not None, td_okd(result[1], max_typed_dict_size)) and implies(result[2] is not None, td_okd(result[2], max_typed_dict_size)))",
              "post:wf": "forall(result[0], lambda n: wf_rw(lookup(result[0], n)) and lookup(result[0], n) is not ELLIPSIS_) and is_dictlike_(result[0])"
                         " and implies(result[1] is not None, wf_rw(result[1]) and result[1] is not ELLIPSIS_) and implies(result[2] is not None, wf_rw(result[2]) and result[2] is not ELLIPSIS_)",
          },
@@ -27,6 +30,8 @@ contract("monkeytype.stubs:shrink_traced_types", props=["C01", "C04", "C14"], th
                     "inv": {"args": "forall(range_(0, _i), lambda j: forall(nth(traces, j).arg_types, lambda n: has(arg_types, n) and has(lookup(arg_types, n), lookup(nth(traces, j).arg_types, n))))",
                             "args-from": "forall(arg_types, lambda n: exists(range_(0, _i), lambda j: has(nth(traces, j).arg_types, n)) and forall(lookup(arg_types, n), lambda ty: wf_rw(ty) and ty is not ELLIPSIS_ and ty is not None) and len(lookup(arg_types, n)) >= 1 and is_dictlike_(lookup(arg_types, n)))",
                             "sets": "is_dictlike_(return_types) and is_dictlike_(yield_types)",
+                            "td": "implies(forall(traces, lambda t: forall(t.arg_types, lambda n: td_okd(lookup(t.arg_types, n), max_typed_dict_size)) and implies(t.return_type is not None, td_okd(t.return_type, max_typed_dict_size)) and implies(t.yield_type is not None, td_okd(t.yield_type, max_typed_dict_size))), forall(arg_types, lambda n: forall(lookup(arg_types, n), lambda ty: td_okd(ty, max_typed_dict_size)))"
+                                  " and forall(return_types, lambda ty: td_okd(ty, max_typed_dict_size)) and forall(yield_types, lambda ty: td_okd(ty, max_typed_dict_size)))",
                             "ret": "forall(range_(0, _i), lambda j: implies(nth(traces, j).return_type is not None, has(return_types, nth(traces, j).return_type)))",
                             "ret-from": "forall(return_types, lambda ty: wf_rw(ty) and ty is not ELLIPSIS_ and ty is not None and exists(range_(0, _i), lambda j: nth(traces, j).return_type is ty))",
                             "yld": "forall(range_(0, _i), lambda j: implies(nth(traces, j).yield_type is not None, has(yield_types, nth(traces, j).yield_type)))",
@@ -37,6 +42,7 @@ contract("monkeytype.stubs:shrink_traced_types", props=["C01", "C04", "C14"], th
                             "kept": "forall(pre_loop('arg_types'), lambda n: has(arg_types, n) and forall(lookup(pre_loop('arg_types'), n), lambda ty: has(lookup(arg_types, n), ty)))",
                             "from": "forall(arg_types, lambda n: (has(pre_loop('arg_types'), n) or exists(range_(0, _i), lambda q: nth(t.arg_types, q) is n))"
                                     " and len(lookup(arg_types, n)) >= 1 and is_dictlike_(lookup(arg_types, n)) and forall(lookup(arg_types, n), lambda ty: wf_rw(ty) and ty is not ELLIPSIS_ and ty is not None))",
+                            "td": "implies(forall(traces, lambda t: forall(t.arg_types, lambda n: td_okd(lookup(t.arg_types, n), max_typed_dict_size)) and implies(t.return_type is not None, td_okd(t.return_type, max_typed_dict_size)) and implies(t.yield_type is not None, td_okd(t.yield_type, max_typed_dict_size))), forall(arg_types, lambda n: forall(lookup(arg_types, n), lambda ty: td_okd(ty, max_typed_dict_size))))",
                             "dictlike": "is_dictlike_(arg_types)"}},
                 "tags": {"arg_types": "DDict:set", "return_types": "set", "yield_types": "set"}})
 
@@ -65,6 +71,9 @@ contract("monkeytype.stubs:get_updated_definition", props=["C01", "C14"], theori
              "post:yield-cover": "forall(traces, lambda t: implies(t.yield_type is not None, L_yield_type is not None and forall_val(lambda v: implies(mem(v, t.yield_type), mem(v, L_yield_type)))))",
              "post:never-invented": "implies(forall(traces, lambda t: t.return_type is None), L_return_type is None) and implies(forall(traces, lambda t: t.yield_type is None), L_yield_type is None)",
              "post:handed-on": "result is FunctionDefinition.from_callable_and_traced_types(func, L_arg_types, L_return_type, L_yield_type, existing_annotation_strategy)",
+             # C06: after merging and rewriting, the types handed to stub generation keep every TypedDict node within the limit
+             "post:td-size-deep": "implies(forall(traces, lambda t: forall(t.arg_types, lambda n: td_okd(lookup(t.arg_types, n), max_typed_dict_size)) and implies(t.return_type is not None, td_okd(t.return_type, max_typed_dict_size)) and implies(t.yield_type is not None, td_okd(t.yield_type, max_typed_dict_size))), forall(L_arg_types, lambda n: td_okd(lookup(L_arg_types, n), max_typed_dict_size))"
+                                  " and implies(L_return_type is not None, td_okd(L_return_type, max_typed_dict_size)) and implies(L_yield_type is not None, td_okd(L_yield_type, max_typed_dict_size)))",
              "post:annotations-modelled": "(result is not None and forall(params_of(result.signature), lambda p: (panno(p) is EMPTY or panno(p) is ELLIPSIS_ or wf_rw(panno(p)) or kind(panno(p)) is K_ForwardRef) and panno(p) is not UNION_BARE) and (ret_of(result.signature) is EMPTY or ret_of(result.signature) is ELLIPSIS_ or wf_rw(ret_of(result.signature)) or kind(ret_of(result.signature)) is K_ForwardRef))",
          })
 
